@@ -8,6 +8,7 @@
 #include <stdio.h>
 #include <stdlib.h>
 #include <string.h>
+#include <sys/sendfile.h>
 #include <sys/uio.h>
 #include <unistd.h>
 #include "zhlog.h"
@@ -36,6 +37,10 @@ ssize_t __real_pread(int fd, void *buf, size_t n, off_t off);
 ssize_t __real_pwrite(int fd, const void *buf, size_t n, off_t off);
 ssize_t __real_readv(int fd, const struct iovec *iov, int cnt);
 ssize_t __real_writev(int fd, const struct iovec *iov, int cnt);
+
+ssize_t __real_sendfile(int out_fd, int in_fd, off_t *off, size_t n);
+ssize_t __real_copy_file_range(int fd_in, off_t *off_in, int fd_out, off_t *off_out, size_t n, unsigned int flags);
+ssize_t __real_splice(int fd_in, off_t *off_in, int fd_out, off_t *off_out, size_t n, unsigned int flags);
 
 ssize_t real_write(int fd, const void *buf, size_t n) { return __real_write(fd, buf, n); }
 ssize_t real_read(int fd, void *buf, size_t n) { return __real_read(fd, buf, n); }
@@ -264,4 +269,45 @@ ssize_t __wrap_writev(int fd, const struct iovec *iov, int cnt) {
         zh_log("{\"ev\":\"io\",\"sys\":\"write\",\"via\":\"writev\",\"cls\":\"%s\",\"k\":%ld,\"off\":%lld,\"len\":%zu,\"ret\":%zu}", c, k, (long long)off, n, n);
     }
     return __real_writev(fd, iov, cnt);
+}
+
+/* Kernel-side copies: not used by the tree today.  A refactor that moves bytes with them is counted and faulted as writes on the
+ * receiving descriptor's class (error kinds fail the call; the short kind transfers only that many bytes). */
+static ssize_t kcopy(const char *via, int out_fd, size_t n, ssize_t (*doit)(size_t m, void *ctx), void *ctx) {
+    const char *c = klass(out_fd);
+    if(!c) return doit(n, ctx);
+    long k = count(c, "write");
+    off_t off = __real_lseek(out_fd, 0, SEEK_CUR);
+    struct fault *f = match(c, "write", k);
+    ssize_t r;
+    if(f && f->kind != 6) {
+        if(f->kind <= 3) { r = -1; errno = fault_errno(f->kind); }
+        else if(f->kind == 4) { size_t m = (size_t)f->arg < n ? (size_t)f->arg : n; r = m ? doit(m, ctx) : 0; }
+        else r = doit(n, ctx);
+        int e = errno;
+        zh_log("{\"ev\":\"io\",\"INJECTED\":%d,\"sys\":\"write\",\"via\":\"%s\",\"cls\":\"%s\",\"k\":%ld,\"off\":%lld,\"len\":%zu,\"ret\":%zd}", f->kind, via, c, k, (long long)off, n, r);
+        errno = e;
+        return r;
+    }
+    r = doit(n, ctx);
+    if(r > 0) { int e = errno; watch_check(c, off, r, via); errno = e; }
+    { int e = errno; zh_log("{\"ev\":\"io\",\"sys\":\"write\",\"via\":\"%s\",\"cls\":\"%s\",\"k\":%ld,\"off\":%lld,\"len\":%zu,\"ret\":%zd}", via, c, k, (long long)off, n, r); errno = e; }
+    return r;
+}
+struct sf_ctx { int out_fd, in_fd; off_t *off; };
+static ssize_t do_sendfile(size_t m, void *v) { struct sf_ctx *x = v; return __real_sendfile(x->out_fd, x->in_fd, x->off, m); }
+ssize_t __wrap_sendfile(int out_fd, int in_fd, off_t *off, size_t n) { struct sf_ctx x = {out_fd, in_fd, off}; return kcopy("sendfile", out_fd, n, do_sendfile, &x); }
+ssize_t __wrap_sendfile64(int out_fd, int in_fd, off_t *off, size_t n) { return __wrap_sendfile(out_fd, in_fd, off, n); }
+struct cfr_ctx { int fd_in; off_t *off_in; int fd_out; off_t *off_out; unsigned int flags; int splice; };
+static ssize_t do_cfr(size_t m, void *v) {
+    struct cfr_ctx *x = v;
+    return x->splice ? __real_splice(x->fd_in, x->off_in, x->fd_out, x->off_out, m, x->flags) : __real_copy_file_range(x->fd_in, x->off_in, x->fd_out, x->off_out, m, x->flags);
+}
+ssize_t __wrap_copy_file_range(int fd_in, off_t *off_in, int fd_out, off_t *off_out, size_t n, unsigned int flags) {
+    struct cfr_ctx x = {fd_in, off_in, fd_out, off_out, flags, 0};
+    return kcopy("copy_file_range", fd_out, n, do_cfr, &x);
+}
+ssize_t __wrap_splice(int fd_in, off_t *off_in, int fd_out, off_t *off_out, size_t n, unsigned int flags) {
+    struct cfr_ctx x = {fd_in, off_in, fd_out, off_out, flags, 1};
+    return kcopy("splice", fd_out, n, do_cfr, &x);
 }
